@@ -18,7 +18,7 @@ func init() {
 	register(&Property{
 		ID:          "C11",
 		Technique:   "static analysis: registry-resolved command tables; argument-count abstract interpretation by exhaustive enumeration of len(cmd.Args) over the labelled CFGs of the leader-side check and the apply handler (with concrete unrolling of step loops); non-negativity dataflow from parsed client integers to slice bounds; typestate of values returned together with an error; ORDER rules on batch abort and recover",
-		Explanation: "Decides: (A1) for every registered write command, every argument count that the leader-side handler lets through to the propose call is safe for the apply handler of the same name and the module functions it hands the arguments to: no index or slice of cmd.Args can be out of range (decided for each count 0..31 and for large even/odd counts, loops over the arguments unrolled concretely), including ApplyRaftRequest's own cmd.Args[0]/[1]; (A2) every proposable command name has an apply handler; (A3) a handler error reaches the batch abort, and a value returned together with an error is never stored unchecked; (A4) the connection path recovers from panics; (A5) an integer parsed from a client argument on the apply path cannot reach a slice bound, index or allocation size while possibly negative.",
+		Explanation: "Decides: (A1) for every registered write command, every argument count that the leader-side handler lets through to the propose call is safe for the apply handler of the same name and the module functions it hands the arguments to: no index or slice of cmd.Args can be out of range (decided for each count 0..31 and for large even/odd counts, loops over the arguments unrolled concretely), including ApplyRaftRequest's own cmd.Args[0]/[1]; (A2) every proposable command name has an apply handler; (A3) a handler error reaches the batch abort, and a value returned together with an error is never stored unchecked; (A4) the connection path recovers from panics; (A5) an integer parsed from a client argument on the apply path cannot reach a slice bound, index or allocation size while possibly negative. A5 also covers (i) size tests that add to the client integer before comparing (the sum wraps around for a huge value: found and fixed in SETRANGE) and (ii) stored values decoded with constant offsets: a small length analysis (requirement computed from the decoder, lower bound at each call from the dominating len() tests and re-slicings) for newHLLItemFromDBBytes.",
 		NotDecided:  "upper-bound index panics that depend on relations between values, nil dereferences, panics inside engines and third-party parsers, arithmetic overflow, size limits, the effect on the next command beyond the batch-abort order, read and merge commands (their panics are recovered on the connection path).",
 		Assumptions: []string{"argument counts >= 32 behave like the representatives 40 (even) and 41 (odd)", "a branch whose condition does not depend on the argument count alone may go either way", "commands reach the apply handler with the argument vector the leader proposed (rebuildFirstKeyAndPropose rewrites only Args[1])"},
 		Run:         runC11,
@@ -224,6 +224,9 @@ func c11A5(c *Ctx) {
 			r.Bad("C11-A5", construct, u.Pos(s.Site.Pos), fmt.Sprintf("the comparison adds to the client value first (%s): for a value near the top of the integer range the sum wraps to a negative number and passes the test; compare the value alone (v > limit - other) or bound it first", t.Tainted[s.Var]))
 		}
 	}
+	// stored values decoded with constant offsets: every caller established the length (a client can store any bytes
+	// under the key with SET and then run PFADD / PFCOUNT on it)
+	lenRequirement(c, "C11-A5", "rockredis.newHLLItemFromDBBytes", 1)
 	for _, s := range sinks {
 		u := s.U
 		v := u.C.TermOfObj(s.Var)
